@@ -29,6 +29,7 @@ def shards(tier, seed):
     out = [{"name": f"streams-{i}", "what": "streams", "i": i, "tier": tier, "seed": seed} for i in range(n)]
     out.append({"name": "long-noise", "what": "long_noise", "tier": tier, "seed": seed})
     out.append({"name": "allcuts", "what": "allcuts", "tier": tier, "seed": seed})
+    out.append({"name": "conformance-pty", "what": "conformance_pty", "tier": tier, "seed": seed})
     return out
 
 
@@ -250,9 +251,79 @@ def judge(segs, stream, required, windows, damaged, cuts, sim, stats, samples, a
         acc.violation(key, f"client retains {worst} bytes at a quiescent point (bound {BOUND}); longest noise run {big_noise} bytes", dict(w, retained_samples=samples[:30]))
 
 
+def conformance_pty(spec, acc):
+    """Keeps the simulator honest for the serial client: the same damaged streams over a real pseudo-terminal
+    (pyserial + serial_asyncio on the ordinary event loop, real time). Order-level comparison with the simulated
+    run; a disagreement is reported as a note / counter, never as a property verdict."""
+    import fcntl
+    import os
+    import pty
+    import tty
+    from nmea2000.ioclient import WaveShareNmea2000Gateway
+    rng = gen.rng_for(spec["seed"], ID, spec["name"])
+
+    async def one(stream, chunks):
+        m, sl = pty.openpty()
+        try:
+            tty.setraw(m)
+            tty.setraw(sl)
+            fcntl.fcntl(m, fcntl.F_SETFL, os.O_NONBLOCK)
+            got = []
+            c = WaveShareNmea2000Gateway(os.ttyname(sl))
+
+            async def cb(msg):
+                got.append(project.msg_proj(msg))
+            c.set_receive_callback(cb)
+            await asyncio.wait_for(c.connect(), 5)
+            await asyncio.sleep(0.05)
+            try:
+                os.read(m, 4096)           # the configuration packet
+            except BlockingIOError:
+                pass
+            for ch in chunks:
+                off = 0
+                while off < len(ch):
+                    try:
+                        off += os.write(m, ch[off:off + 512])
+                    except BlockingIOError:
+                        await asyncio.sleep(0.005)
+                await asyncio.sleep(0.002)
+            await asyncio.sleep(0.4)
+            retained = retained_bytes(c)
+            await asyncio.wait_for(c.close(), 5)
+            return got, retained
+        finally:
+            os.close(m)
+            os.close(sl)
+
+    for rep in range(3 if spec["tier"] == "quick" else 12):
+        segs = build_stream(rng, rng.randint(6, 16), 400)
+        stream, required, windows, damaged = ground_truth(segs)
+        cuts = sorted(rng.sample(range(1, len(stream)), min(len(stream) - 1, rng.randint(1, 12))))
+        chunks = [stream[a:b] for a, b in zip([0] + cuts, cuts + [len(stream)])]
+        sim, stats, samples = run_stream(stream, cuts, 0)
+        want = [project.msg_proj(x) for x in sim.received] if sim is not None and not stats["error"] else None
+        try:
+            got, retained = asyncio.run(asyncio.wait_for(one(stream, chunks), 30))
+        except Exception as e:  # noqa: BLE001
+            acc.note(f"pty conformance run could not be completed: {type(e).__name__}: {e}")
+            continue
+        acc.count("pty_conformance_runs")
+        acc.case(None)
+        if want is None or got != want:
+            acc.count("pty_conformance_mismatches")
+            acc.note(f"pty conformance: real serial path delivered {len(got)} messages, simulator {None if want is None else len(want)}")
+        else:
+            acc.count("pty_conformance_messages_equal", len(got))
+        if retained > BOUND:
+            acc.note(f"pty conformance: {retained} bytes retained on the real serial path")
+
+
 def run_shard(spec, acc):
     rng = gen.rng_for(spec["seed"], ID, spec["name"])
     quick = spec["tier"] == "quick"
+    if spec["what"] == "conformance_pty":
+        return conformance_pty(spec, acc)
     if spec["what"] == "long_noise":
         for n in ([1000, 20000, 100000] if quick else [1000, 20000, 100000, 400000, 1000000]):
             for kind in ("marker_free", "half_marker_end"):
